@@ -102,6 +102,9 @@ def c05():
     chk = Check("C05", "model_checking")
     if chk.tier == "thorough":
         traces = trie_stage(chk, "MCTrie_export5.cfg", ["tree", "mem", "nonmem"])
+        # depth-4 label universe (16 leaf slots, <= 3 leaves over 2 epochs): paths with three interior levels
+        traces += trie_stage(chk, "MCTrie_export_d4.cfg", ["tree", "mem", "nonmem"], d=4, trace_cfg="TraceTrie_d4.cfg", name="trie_d4",
+                             max_trees=int(os.environ.get("VERIF_D4_TREES", "2000")))
     else:
         traces = trie_stage(chk, "MCTrie_export4.cfg", ["tree", "mem", "nonmem"])
     # count candidates and the known degenerate case
